@@ -118,7 +118,21 @@ BigTwo == [n \in 1..8 |->
              LET sz == IF n <= 4 THEN 33 ELSE 40 lf == n % 2 = 0 rf == (n \div 2) % 2 = 0 IN
              [ast |-> Bin("==", Path("@", <<Child(Kk), Wild>>), Path("@", <<Child(Kj), Wild>>)), root |-> Members(None, None),
               elem |-> ObjV(<<Kj, Kk>>, <<Big(sz, IF rf THEN 1 ELSE sz, IntV(7), IntV(6)), Big(sz, IF lf THEN 1 ELSE sz, IntV(7), IntV(5))>>)]]
-Cases == BinCases \o UnCases \o BareCases \o BigOne \o BigTwo
+\* regular expressions: whole-string (match) versus anywhere (search, =~) - patterns with top-level alternation with and without
+\* their own anchors, an escaped trailing "$" / leading "^", anchors in the middle, ".*"; subjects that match only as a prefix,
+\* suffix or in the middle.  The truth comes from the Go regexp facts in rx.ndjson under the documented semantics
+\* (match = the pattern wrapped as ^(?:p)$, search / =~ unanchored).  Patterns: a|b  ^a|b$  ^(a|b)$  ^a$|^b$  ^abc|xyz$  cost\$  ^cost\$  \^a  a^b  a$b  .*  a.*  abc  ^abc$ ; subjects: 'a'  'b'  'ab'  'abc'  'abcZZ'  'ZZxyz'  'xyz'  'ZZabcZZ'  'cost$'  'cost$x'  'xcost$'  '^a'  'x^a'  ''  'a^b'  'ZZ'
+RxPats == <<<<97, 124, 98>>, <<94, 97, 124, 98, 36>>, <<94, 40, 97, 124, 98, 41, 36>>, <<94, 97, 36, 124, 94, 98, 36>>, <<94, 97, 98, 99, 124, 120, 121, 122, 36>>, <<99, 111, 115, 116, 92, 36>>, <<94, 99, 111, 115, 116, 92, 36>>, <<92, 94, 97>>, <<97, 94, 98>>, <<97, 36, 98>>, <<46, 42>>, <<97, 46, 42>>, <<97, 98, 99>>, <<94, 97, 98, 99, 36>>>>
+RxSubs == <<<<97>>, <<98>>, <<97, 98>>, <<97, 98, 99>>, <<97, 98, 99, 90, 90>>, <<90, 90, 120, 121, 122>>, <<120, 121, 122>>, <<90, 90, 97, 98, 99, 90, 90>>, <<99, 111, 115, 116, 36>>, <<99, 111, 115, 116, 36, 120>>, <<120, 99, 111, 115, 116, 36>>, <<94, 97>>, <<120, 94, 97>>, <<>>, <<97, 94, 98>>, <<90, 90>>>>
+RxFns == <<"match", "search", "=~", "rx">>       \* "rx": =~ with a /regex/ constant instead of a string pattern
+RxCases == [n \in 1..(Len(RxFns) * Len(RxPats) * Len(RxSubs)) |->
+              LET fn == RxFns[((n - 1) \div (Len(RxPats) * Len(RxSubs))) + 1]
+                  pt == RxPats[(((n - 1) \div Len(RxSubs)) % Len(RxPats)) + 1]
+                  sb == RxSubs[((n - 1) % Len(RxSubs)) + 1] IN
+              [ast |-> IF fn = "rx" THEN Bin("=~", Path("@", <<>>), Const([t |-> "rx", p |-> pt]))
+                       ELSE Bin(fn, Path("@", <<>>), Const(StrV(pt))),
+               elem |-> StrV(sb), root |-> Members(None, None)]]
+Cases == BinCases \o UnCases \o BareCases \o BigOne \o BigTwo \o RxCases
 
 VARIABLE done
 Init == done = FALSE
